@@ -112,6 +112,7 @@ class Ctx:
 
     def __exit__(self, *a):
         _CUR[0] = self._prev
+        main_thread_gc()
 
     # -- variables --
     def var(self, name, lo=None, hi=None, lo_open=True, hi_open=True, wlo=None, whi=None):
@@ -324,6 +325,26 @@ def _exact_sqrt(c):
     if rn * rn == n and rd * rd == d:
         return Fr(rn, rd)
     return None
+
+
+_GC_LAST = [0.0]
+
+
+def main_thread_gc(min_interval=2.0):
+    """z3 is not thread-safe and its Python objects release their ASTs in __del__.  The cyclic garbage collector may run in ANY thread (yadism's
+    Runner starts a rich.live thread; the watchdog is one), and a Z3_dec_ref from there while the main thread is inside z3 crashed two shards of a
+    thorough C20 run (SIGSEGV in Z3_dec_ref).  The driver therefore disables the automatic collector in shard processes and collects here, in the
+    main thread, between cells."""
+    import gc
+    import threading
+    import time
+
+    if gc.isenabled() or threading.current_thread() is not threading.main_thread():
+        return
+    now = time.time()
+    if now - _GC_LAST[0] >= min_interval:
+        gc.collect()
+        _GC_LAST[0] = time.time()
 
 
 def _is_num(o):
